@@ -145,7 +145,10 @@ def setup(c):
                      "`dump` lines compare the ordered index and latestVersions; a quarter of the cases start with the directed hole family "
                      "(3..6 regions, cache warmed over the whole key space, need-reload flag or invalidation on one or two MIDDLE regions, then "
                      "batch/range lookups spanning them, also with ranges starting inside the flagged region and under a stale PD view); "
-                     "conv <key> <inval|reload|epochnm>: request attempts against the live PD until the location is the current region (at most one rejected), "
+                     "a third of the cases start with a directed family: the hole family or the boundary family (every boundary key of a 3..6 region layout looked up "
+                     "by key, by END key and as end/start of range and batch requests, with the region ending there — and sometimes the one starting there — warm, "
+                     "need-reload (direct or via OnSendFail), delayed-reload ready, invalidated, TTL run out or GC'd, under live and stale PD views; then a stale "
+                     "parent description over dead children, with and without the parent's id known to latestVersions); conv <key> <inval|reload|epochnm>: request attempts against the live PD until the location is the current region (at most one rejected), "
                      "then one more LocateKey that must not reach PD (round trips counted in the harness' PD wrapper); expire/sendfail ops; every 150th case "
                      "sends 2100-2600 request ranges in one BatchLocateKeyRanges call; distinct = distinct op lines")
     c.assumptions = [
